@@ -615,14 +615,19 @@ impl<'tcx> Cx<'tcx> {
         };
         let parent = tcx.opt_parent(owner).map(|p| esc(&self.path(p))).unwrap_or("null".into());
         let in_test = self.in_cfg_test(owner);
+        let exported = match owner.as_local() {
+            Some(l) if matches!(def_kind, DefKind::Fn | DefKind::AssocFn) => tcx.effective_visibilities(()).is_reachable(l),
+            _ => false,
+        };
         format!(
-            "{{\"id\":{},\"kind\":{},\"promoted\":{},\"def_kind\":{},\"span\":{},\"vis\":{},\"unsafe\":{},\"arg_count\":{},\"impl_trait\":{},\"impl_self\":{},\"trait_of\":{},\"parent\":{},\"in_test\":{},\"locals\":{},\"upvars\":{},\"blocks\":{}}}",
+            "{{\"id\":{},\"kind\":{},\"promoted\":{},\"def_kind\":{},\"span\":{},\"vis\":{},\"exported\":{},\"unsafe\":{},\"arg_count\":{},\"impl_trait\":{},\"impl_self\":{},\"trait_of\":{},\"parent\":{},\"in_test\":{},\"locals\":{},\"upvars\":{},\"blocks\":{}}}",
             esc(id),
             esc(kind),
             match promoted { Some(p) => format!("{}", p), None => "null".into() },
             esc(&format!("{:?}", def_kind)),
             self.span(body.span),
             esc(&vis),
+            exported,
             is_unsafe,
             body.arg_count,
             impl_of_trait,
